@@ -314,6 +314,69 @@ let rec subseq_items xs ys =
        then subseq_items xr yr
        else subseq_items xs yr)
 
+(** val ends_with : string -> str -> bool **)
+
+let ends_with x s =
+  starts_with (rev (s_ x)) (rev s)
+
+(** val is_stmt : node -> bool **)
+
+let is_stmt n = match n with
+| NObj _ ->
+  (||)
+    (ends_with (String ((Ascii (true, true, false, false, true, false, true,
+      false)), (String ((Ascii (false, false, true, false, true, true, true,
+      false)), (String ((Ascii (true, false, false, false, false, true, true,
+      false)), (String ((Ascii (false, false, true, false, true, true, true,
+      false)), (String ((Ascii (true, false, true, false, false, true, true,
+      false)), (String ((Ascii (true, false, true, true, false, true, true,
+      false)), (String ((Ascii (true, false, true, false, false, true, true,
+      false)), (String ((Ascii (false, true, true, true, false, true, true,
+      false)), (String ((Ascii (false, false, true, false, true, true, true,
+      false)), EmptyString)))))))))))))))))) (ntype n))
+    (ends_with (String ((Ascii (false, false, true, false, false, false,
+      true, false)), (String ((Ascii (true, false, true, false, false, true,
+      true, false)), (String ((Ascii (true, true, false, false, false, true,
+      true, false)), (String ((Ascii (false, false, true, true, false, true,
+      true, false)), (String ((Ascii (true, false, false, false, false, true,
+      true, false)), (String ((Ascii (false, true, false, false, true, true,
+      true, false)), (String ((Ascii (true, false, false, false, false, true,
+      true, false)), (String ((Ascii (false, false, true, false, true, true,
+      true, false)), (String ((Ascii (true, false, false, true, false, true,
+      true, false)), (String ((Ascii (true, true, true, true, false, true,
+      true, false)), (String ((Ascii (false, true, true, true, false, true,
+      true, false)), EmptyString)))))))))))))))))))))) (ntype n))
+| Block (_, _) -> true
+| _ -> false
+
+(** val remove_jv : jv -> jv list -> jv list option **)
+
+let rec remove_jv x = function
+| [] -> None
+| y :: r ->
+  if jv_eqb x y
+  then Some r
+  else (match remove_jv x r with
+        | Some r' -> Some (y :: r')
+        | None -> None)
+
+(** val sub_multiset : jv list -> jv list -> bool **)
+
+let rec sub_multiset xs ys =
+  match xs with
+  | [] -> true
+  | x :: r ->
+    (match remove_jv x ys with
+     | Some ys' -> sub_multiset r ys'
+     | None -> false)
+
+(** val stmts_kept : node -> node -> bool **)
+
+let stmts_kept input output =
+  sub_multiset
+    (map enc (filter (fun n -> (&&) (is_stmt n) (jsx_free n)) (subs input)))
+    (map enc (filter is_stmt (subs output)))
+
 (** val extras : jv -> jv -> (str * str) list **)
 
 let extras c model_out =
@@ -699,28 +762,38 @@ let extras c model_out =
     (if e.e_opts.o_resolve_type
      then true
      else subseq_items (filter jsx_free (module_items input))
-            (module_items real)))) :: (((s_ (String ((Ascii (false, true,
-                                          false, true, false, true, true,
+            (module_items real)))) :: (((s_ (String ((Ascii (true, true,
+                                          true, true, false, true, true,
                                           false)), (String ((Ascii (true,
-                                          true, false, false, true, true,
+                                          true, false, false, false, false,
                                           true, false)), (String ((Ascii
-                                          (false, false, false, true, true,
-                                          true, true, false)), (String
-                                          ((Ascii (false, true, true, false,
-                                          false, true, true, false)), (String
-                                          ((Ascii (false, true, false, false,
-                                          true, true, true, false)), (String
-                                          ((Ascii (true, false, true, false,
-                                          false, true, true, false)), (String
-                                          ((Ascii (true, false, true, false,
-                                          false, true, true, false)), (String
-                                          ((Ascii (true, true, true, true,
-                                          true, false, true, false)), (String
+                                          (false, false, false, false, true,
+                                          true, false, false)), (String
                                           ((Ascii (true, false, false, true,
+                                          true, true, false, false)), (String
+                                          ((Ascii (true, true, false, false,
+                                          true, true, true, false)), (String
+                                          ((Ascii (false, false, true, false,
+                                          true, true, true, false)), (String
+                                          ((Ascii (true, false, true, true,
                                           false, true, true, false)), (String
-                                          ((Ascii (false, true, true, true,
-                                          false, true, true, false)),
-                                          EmptyString))))))))))))))))))))),
+                                          ((Ascii (false, false, true, false,
+                                          true, true, true, false)), (String
+                                          ((Ascii (true, true, false, false,
+                                          true, true, true, false)),
+                                          EmptyString))))))))))))))))))),
+  (b2s (if e.e_opts.o_resolve_type then true else stmts_kept input real))) :: ((
+  (s_ (String ((Ascii (false, true, false, true, false, true, true, false)),
+    (String ((Ascii (true, true, false, false, true, true, true, false)),
+    (String ((Ascii (false, false, false, true, true, true, true, false)),
+    (String ((Ascii (false, true, true, false, false, true, true, false)),
+    (String ((Ascii (false, true, false, false, true, true, true, false)),
+    (String ((Ascii (true, false, true, false, false, true, true, false)),
+    (String ((Ascii (true, false, true, false, false, true, true, false)),
+    (String ((Ascii (true, true, true, true, true, false, true, false)),
+    (String ((Ascii (true, false, false, true, false, true, true, false)),
+    (String ((Ascii (false, true, true, true, false, true, true, false)),
+    EmptyString))))))))))))))))))))),
   (b2s (jsx_free input))) :: (((s_ (String ((Ascii (true, true, false, false,
                                  true, true, true, false)), (String ((Ascii
                                  (true, false, false, false, false, true,
@@ -1089,7 +1162,7 @@ let extras c model_out =
               (true, false, true, false, true, true, true, false)), (String
               ((Ascii (false, false, true, false, true, true, true, false)),
               EmptyString)))))))))))) alt)
-     else true))) :: []))))))))))))))))))
+     else true))) :: [])))))))))))))))))))
 
 (** val regex_table : jv -> str -> bool **)
 
